@@ -279,6 +279,12 @@ def rule_c(ctx: Context, R: Reporter, fi: FuncInfo):
             msg=f"{fi.short}: {len(draws)} random draws (systematic resampling uses one shared offset; per-position draws are stratified resampling)", key="one-draw")
     for d in draws:
         n = flow.node_containing(d.call)
+        if n is None:
+            # not a statement of the body: a default argument (or decorator), evaluated once when the function is defined
+            R.check("C06.c", "the offset is a scalar uniform on [0,1), drawn outside any loop", False, fi, d.call,
+                    msg=f"{fi.short}: offset draw `{unparse(d.call)}` is evaluated once, when the function is defined (default argument): every call of the process uses the same comb offset, "
+                        f"so the expected number of copies of a particle is floor/ceil of n*w for that one offset instead of n*w", key="scalar-offset")
+            continue
         scalar = not d.call.args and not d.call.keywords and d.name in ("numpy.random.random", "numpy.random.rand", "numpy.random.random_sample", "numpy.random.uniform")
         R.check("C06.c", "the offset is a scalar uniform on [0,1), drawn outside any loop", scalar and not n.loops, fi, d.call,
                 msg=f"{fi.short}: offset draw `{unparse(d.call)}` is not a scalar U[0,1) outside loops", key="scalar-offset")
